@@ -33,6 +33,12 @@ CLAIMED = {
          "Accept / reject, the exception type and the returned graph (atoms by increasing atomic number, bond set, attributes) of the real parser are compared by TLC with Denote(s) for every string of the enumerated neighbourhoods and for seeded edits of library-emitted strings, including re-parsing after the returned graph was edited in place.", "§4 C10"),
  "C11": ("TLC bounded model of respelling walks (molecule kept, normal form reached, all by the specification incl. the bliss contract) + spec->code replay + trace validation of seeded respelling walks on library strings",
          "Each respelling is verified by TLC on the denotations through its index map; the real parse -> canonicalize -> serialize must return one string per class of verified respellings, and applying it twice must change nothing.", "§4 C11"),
+ "C14": ("TLC model of concurrent callers (Threads.tla: serialize / canonicalize / parse steps over explicitly shared variables, negative controls for each sharing deviation) + trace validation of a registry 'same operation, same input, same result' over processes (PYTHONHASHSEED x call orders), free-running threads on private and shared objects, and deterministic one-preemption schedules",
+         "Every interleaving of 2-3 modelled callers returns the sequential results; results of the real operations over one workload collected under different hash seeds, shuffled / repeated call orders, concurrent threads and enumerated preemption points are validated by TLC against the registry.", "§4 C14"),
+ "C15": ("TLC bounded model of termination / stack depth (Size.tla: all graphs with 5-6 atoms, StackLimit control) + event-level trace validation at real sizes with a measured stack-depth growth probe",
+         "Scaled-down decision by TLC (round bound, no crash state, BFS assigns n labels); at real sizes (hundreds to thousands of atoms of the named families) the pipeline's normal return with unchanged counts is validated at event level; a stack depth that grows with the size is followed up by running the predicted failing size.", "§4 C15"),
+ "C16": ("TLC bounded model of the shuffle / retry loop with an abstract random source (Permute.tla, all graphs with 4-5 atoms) + trace validation of permute_molecule calls (tags, snapshots, seed registry)",
+         "The returned graph must be the argument under the tag-derived bijection with all atom and bond data, listed in label order, argument untouched, same result for the same seed whatever else used the global generator, edge set changed when enforcement applies; arguments include canonical graphs (not listed in label order).", "§4 C16"),
 }
 checks = []
 for p in props:
